@@ -518,6 +518,14 @@ class Leb128Field(VarField):
     def _terminate(self,b,f):
         return b&0x80==0
 
+    def copy(self,obj=None):
+        # (the generic copy rebuilds the field from its typename 'c',
+        # which would lose the signedness of the LEB128 integer)
+        newf = super().copy(obj)
+        newf.sign = self.sign
+        newf.N = self.N
+        return newf
+
     def unpack(self,data,offset=0, psize=0):
         val, sz = read_leb128(data,self.sign,offset)
         self._sz = sz
